@@ -261,7 +261,20 @@ class RealMods:
 
 def replay_concrete(harness, failure, allowed_exceptions=()):
     """Run `harness(h)` concretely with the witness; reproduced iff the same
-    label fails on the real package."""
+    label fails on the real package.  The solver's second witness (generic position,
+    ctx.spread_model) is tried when the first does not reproduce."""
+    r = _replay_one(harness, failure, allowed_exceptions)
+    if not r.get("reproduced") and failure.get("alt_inputs"):
+        f2 = dict(failure)
+        f2["inputs"] = failure["alt_inputs"]
+        r2 = _replay_one(harness, f2, allowed_exceptions)
+        if r2.get("reproduced"):
+            r2["detail"] += " (generic-position witness)"
+            return r2
+    return r
+
+
+def _replay_one(harness, failure, allowed_exceptions=()):
     det = failure.get("detail") or {}
     choices = det.get("choices", {}) if isinstance(det, dict) else {}
     h = ConH(RealMods(), failure["inputs"], choices)
